@@ -134,16 +134,19 @@ def sh4(ctx: Ctx, shapes: Shapes):
                 ash = "/".join(sorted(shapes.shape(auth, st.facts, fi, None, r))) if auth is not None else "?"
                 if not ash:
                     continue        # contradictory path condition
-                bad = [f"{b} when the stored authority is {ash}" for b in bad]
-                results.setdefault((k, tuple(bad)), []).append((cond, verdicts, node))
+                # the finding is identified by the entry and the authority shape it occurs under; the shape sets the
+                # analysis computed are detail (they vary with the precision of the callee summaries)
+                bad = [(f"eager value outside the lazy definition's range when the stored authority is {ash}", b) for b in bad]
+                results.setdefault((k, tuple(x[0] for x in bad)), []).append((cond, verdicts, node, bad))
         _sh4c(ctx, model, shapes, fi, methods, fillers, results)
         for (k, bad), lst in results.items():
             ctx.instance(rule)
-            cond, verdicts, node = lst[0]
+            cond, verdicts, node = lst[0][:3]
             if bad:
+                detail = lst[0][3][0][1] if len(lst[0]) > 3 and lst[0][3] else ""
                 ctx.ob(rule, fi.qual, f"cache[{k!r}]: {bad[0]}", False,
                        f"the parser pre-fills {k!r} with a value the lazy definition can never produce on the same URL "
-                       f"({bad[0]}): an unpickled copy disagrees with the original", where(fi, node))
+                       f"({detail}; {bad[0]}): an unpickled copy disagrees with the original", where(fi, node))
             else:
                 ctx.ob(rule, fi.qual, f"cache[{k!r}]", True, where=where(fi, node),
                        sample=f"{len(lst)} constructor exit state(s): {verdicts[0][0]}")
